@@ -78,12 +78,37 @@ def tree(toks, fname):
         fail("unbalanced delimiters at end", fname)
     return strip_attrs(stack[0].c)
 
+DROP_CFG = ("cfg(boreal_verif)", "cfg(test)", 'cfg(not(feature="serialize"))')
+
+def flat(ts):
+    out = []
+    for t in ts:
+        if isinstance(t, G):
+            out.append(t.d + flat(t.c) + CLOSE[t.d])
+        else:
+            out.append(t)
+    return "".join(out)
+
 def strip_attrs(ts):
+    """drop attributes; an item guarded by a cfg that is off in the configuration the harness builds
+    (tests, serialize disabled) or that belongs to the verification hooks is dropped with its attribute"""
     out, i = [], 0
     while i < len(ts):
         t = ts[i]
         if t == "#" and i + 1 < len(ts) and isinstance(ts[i + 1], G) and ts[i + 1].d == "[":
+            attr = flat(ts[i + 1].c)
             i += 2
+            if attr in DROP_CFG:
+                # skip the guarded item: up to and including `,` / `;`, or through its `{…}` body
+                while i < len(ts):
+                    u = ts[i]
+                    i += 1
+                    if u in (",", ";"):
+                        break
+                    if isinstance(u, G) and u.d == "{":
+                        if i < len(ts) and ts[i] in (",", ";"):
+                            i += 1
+                        break
             continue
         if t == "#" and i + 2 < len(ts) and ts[i + 1] == "!" and isinstance(ts[i + 2], G):
             i += 3
@@ -760,10 +785,21 @@ class Translator:
             fail("statement not understood on the write side: " + s[:100], where)
         return items
 
+    def note_unwritten(self, key, declared, written):
+        base = {w.split("[")[0] for w in written}
+        miss = [f for f in declared if f not in base]
+        if miss:
+            self.unwritten_fields[key] = miss
+
     def translate_write(self, tyname, fn, where):
         items = self.write_seq(self.statements(fn.body), {}, tyname, where)
         if len(items) == 1 and items[0][0] == "enum":
+            for vname, tag, sch in items[0][1]:
+                v = self.variant(tyname, vname, where)
+                self.note_unwritten(tyname + "::" + vname, [f for f, _ in v[2]], [f for f, _ in sch[1]])
             return ("Enum", items[0][1])
+        if tyname in self.structs and all(x[0] == "field" for x in items):
+            self.note_unwritten(tyname, [f for f, _ in self.structs[tyname][1]], [x[1] for x in items])
         if any(x[0] != "field" for x in items):
             fail("struct %s writes a bare discriminant" % tyname, where)
         # a newtype around an enum written through let-match: RIType
@@ -921,6 +957,7 @@ class Translator:
                     if p in idents(init) and idents(init)[0] == p:
                         p2f.setdefault(p, fld)
             self.ctor_fn_params[(tyname, fnname)] = (params, p2f)
+            fn_rebuilt = [fld for fld, _ in self.ctor_inits(inner, tyname, where) if fld not in p2f.values()]
             for p, a in zip(params, args):
                 if p in p2f:
                     inits.append((p2f[p], a))
@@ -930,6 +967,8 @@ class Translator:
             inits = self.ctor_inits(ctor, tyname, where)
         readvars = [v for v, _ in reads]
         assigned, order_inline, rebuilt = {}, [], []
+        if fnname is not None:
+            rebuilt = [(f, []) for f in fn_rebuilt]
         for fld, init in inits:
             if contains(init, "reader"):
                 order_inline.append((fld, self.read_expr(init, where, fld)))
@@ -1215,6 +1254,7 @@ class Translator:
                 if n != "DeserializeParams":
                     self.structs.setdefault(n, (rel, d))
         self.rebuilt_fields = {}
+        self.unwritten_fields = {}
         self.ctor_fn_params = {}
         self.calls = []
         self.calls_by_type = {}
@@ -1521,6 +1561,9 @@ def emit(tr):
     L.append("(* fields that are not on the wire but recomputed by the deserialiser *)")
     L.append("Definition rebuilt_fields : list (string * list string) := [%s]." % "; ".join(
         "(%s, [%s])" % (cstr(t), "; ".join(cstr(f) for f in fs)) for t, fs in sorted(tr.rebuilt_fields.items())))
+    L.append("(* fields that `serialize` does not write *)")
+    L.append("Definition unwritten_fields : list (string * list string) := [%s]." % "; ".join(
+        "(%s, [%s])" % (cstr(t), "; ".join(cstr(f) for f in fs)) for t, fs in sorted(tr.unwritten_fields.items())))
     L.append("")
     L.append("Local Close Scope string_scope.")
     L.append("Definition wire_magic_write : bytes := [%s]." % "; ".join(str(ord(c)) for c in tr.magic_w))
